@@ -217,6 +217,12 @@ func c03Find(c *Ctx, cs *C03Case, out *CaseOut, wantSig string) []c03Fail {
 		p := ParseLoc(eng, srcs[i], filepath.Join(c20Root, "root.html"), 1)
 		tpls[i] = p.T // nil: parse error; steps that need it use the ParseAnd* form
 	}
+	tsnaps := make([]string, len(tpls))
+	for i, t := range tpls {
+		if t != nil {
+			tsnaps[i] = Snapshot(t)
+		}
+	}
 	exp := map[[3]int]Res{}
 	expected := func(t, b, ep int) Res {
 		cls := 0
@@ -311,6 +317,17 @@ func c03Find(c *Ctx, cs *C03Case, out *CaseOut, wantSig string) []c03Fail {
 			}
 			if si > 0 {
 				out.Hashes = append(out.Hashes, hashStr(strings.Join(srcs, "\x00"), hist))
+			}
+		}
+		for i, t := range tpls {
+			if t == nil || (i != st.T && si != len(cs.Steps)-1) {
+				continue // the template just used after every step; all of them after the last
+			}
+			if s := Snapshot(t); s != tsnaps[i] {
+				if add("template-unchanged", fmt.Sprintf("step %d (%s of template %d with env %d) changed the parsed template %d %q: %s", si, st.Kind, st.T, st.B, i, clip(srcs[i]), diffAt(tsnaps[i], s)), si) {
+					return fails
+				}
+				tsnaps[i] = s
 			}
 		}
 		for i, e := range envs {
